@@ -3,7 +3,7 @@
 # check, which must report the defect again (a fixed entry in known_findings.json suppresses nothing).
 export GOFLAGS=-mod=mod GOPROXY=off GOSUMDB=off GOTOOLCHAIN=local
 cd "$(dirname "$0")/.."
-declare -A PROP=( ["tsp.LIB"]=C20 ["SortedInts.Add"]=C17 ["sortints.Range"]=C17 ["sortints.Complement"]=C17 ["SparseGraph.RemoveVertex"]=C05 ["Graph6Decode"]=C08 ["dawg Finish"]=C12 ["dawg Builder.Add"]=C12 ["vertex classes"]=C02 ["largest vertex as the root"]=C02 ["members in any order"]=C02 )
+declare -A PROP=( ["tsp.LIB"]=C20 ["SortedInts.Add"]=C17 ["sortints.Range"]=C17 ["sortints.Complement"]=C17 ["SparseGraph.RemoveVertex"]=C05 ["Graph6Decode"]=C08 ["dawg Finish"]=C12 ["dawg Builder.Add"]=C12 ["vertex classes"]=C02 ["largest vertex as the root"]=C02 ["members in any order"]=C02 ["does not overflow"]=C17 )
 git -C /repo log --format='%h %s' | grep ' fix: ' | while read h rest; do
   prop=""
   for k in "${!PROP[@]}"; do case "$rest" in *"$k"*) prop=${PROP[$k]};; esac; done
